@@ -59,6 +59,17 @@ theorem C01_agree (c : Ctor) (v : GoVal) :
 example : ∃ m, mk .just (.ptr (.int .int) none) = .ok m ∧ m.isNil = true ∧ m.conv "ToInt8" = .errNil := ⟨_, rfl, rfl, rfl⟩
 example : ∃ m, mk (.generics .slice) (.slice .nil) = .ok m ∧ m.isNil = false ∧ m.isPresent = true := ⟨_, rfl, rfl, rfl⟩
 
+/-- "absent renders as <nil>" rests on the `IsNil()` guard of `ToString`, not on `fmt`: handed a typed nil pointer whose
+    type has a nil-tolerant `String()` / `Error()` method, `%v` prints that method's text — yet the absent Maybe built
+    from it (either constructor) renders as "<nil>" (`C01_agree`, last clause, holds for these `v` as for all others) -/
+example :
+    fmtV [] 0 (.ptr (.named .node) none) = some (hexOfAscii "[]") ∧
+    fmtV [] 0 (.ptr (.named .err) none) = some (hexOfAscii "no error") ∧
+    (built (.generics (.ptr (.named .node))) (.ptr (.named .node) none)).toStr [] = some (hexOfAscii "<nil>") ∧
+    (built (.generics .any) (.ptr (.named .err) none)).toStr [] = some (hexOfAscii "<nil>") ∧
+    (built .just (.ptr (.named .err) none)).toStr [] = some (hexOfAscii "<nil>") := by
+  refine ⟨rfl, rfl, rfl, rfl, rfl⟩
+
 /-- `None`, `JustGenerics[any](nil)` and `JustGenerics[*T](nil)`: different representations of absence, same observations -/
 theorem C01_absent_obsEq (h : Heap) (c c' : Ctor) (v v' : GoVal) (hv : absent v = true) (hv' : absent v' = true) :
     ObsEq h (built c v) (built c' v') := by
